@@ -28,6 +28,7 @@ type e2eCase struct {
 	Start     string     `json:"start,omitempty"` // flag texts ("" = flag absent)
 	End       string     `json:"end"`
 	Since     string     `json:"since,omitempty"`
+	Step      string     `json:"step,omitempty"`
 	Limit     int        `json:"limit"` // 0 = flag absent
 	Timestamp *bool      `json:"timestamp,omitempty"`
 	Container *bool      `json:"container,omitempty"`
@@ -42,6 +43,9 @@ func (t e2eCase) args() []string {
 	a = append(a, "--end="+t.End)
 	if t.Since != "" {
 		a = append(a, "--since="+t.Since)
+	}
+	if t.Step != "" {
+		a = append(a, "--step="+t.Step)
 	}
 	if t.Limit != 0 {
 		a = append(a, fmt.Sprintf("--limit=%d", t.Limit))
@@ -80,6 +84,10 @@ func e2eGen(r *rand.Rand) e2eCase {
 	}
 	if r.Intn(2) == 0 {
 		t.Limit = pick(r, []int{1, 2, 3, 5, -1})
+	}
+	if r.Intn(3) == 0 {
+		// a step does not change a log query's answer, but it must be accepted or rejected as a step
+		t.Step = pick(r, []string{"30s", "15", "2.5", "1m", "1h30m", "0", "abc", "-5s"})
 	}
 	if r.Intn(3) == 0 {
 		b := r.Intn(2) == 0
@@ -127,11 +135,15 @@ func init() {
 					return L(A("setup-error"), A("timerange"), tr)
 				}
 				start, end := tr.List[1].Int(), tr.List[2].Int()
-				st, err := c.Drv.Ask(L(A("step"), A("none"), N(start), N(end)))
-				if err != nil || st.Head() != "ok" {
+				st, err := c.Drv.Ask(L(A("step"), optS(t.Step), N(start), N(end)))
+				if err != nil {
 					return L(A("setup-error"), A("step"), st)
 				}
-				step := st.List[1].Int()
+				stepRejected := st.Head() != "ok"
+				step := int64(1e9)
+				if !stepRejected {
+					step = st.List[1].Int()
+				}
 				// 2. evaluation in process with those parameters
 				cc := c18Case{Ctrs: t.Ctrs, Sel: t.Sel, Stages: t.Stages}
 				q, _ := dockerlog.NewQuerier(cc.fake(nil))
@@ -141,8 +153,8 @@ func init() {
 				}
 				data, eerr := evalQuery(q, logQueryText(t.Sel, t.Stages), start, end, timeDur(step), limit)
 				want := ""
-				wantFail := eerr != nil
-				if eerr == nil {
+				wantFail := eerr != nil || stepRejected
+				if eerr == nil && !stepRejected {
 					type ent struct {
 						T uint64 `json:"t"`
 						V string `json:"v"`
